@@ -19,18 +19,21 @@ EXPLANATION = (
     'R1 every read/write of X._container anywhere in the package is preceded on every CFG path by X.flush_pre_post() on the same '
     'receiver (or X is a fresh copy()/constructor result), with no queueing operation in between; the effect of each method is '
     'summarised from its own body; the by-design dirty readers (__iadd__, __len__) must look at _container, pre and post together; '
-    'R2 the decision table of _can_dedup equals bare-prefix > OVERRIDDEN > UNIQUE > NO_DEDUP on every world and, evaluated with the '
-    'folded class tables of CLikeCompilerArgs, classifies the documented argument kinds as the property states (prepend -I/-L; '
-    'overridden -I -isystem -L -D -U; unique -l, library files, -pthread ...); '
+    'R2 the decision table of _can_dedup equals bare-prefix > OVERRIDDEN > UNIQUE > NO_DEDUP on every world of its atoms, each table is consulted '
+    'in the way its role allows and both prefix tables have an "is itself the prefix" test; _should_prepend is equivalent to startswith(prepend_prefixes) '
+    'on every world; the folded class tables of CLikeCompilerArgs equal (prepend/dedup2) or contain (dedup1) the reference sets; the language of '
+    'dedup1_regex contains lib*.so with up to three numeric components and is disjoint from the neighbouring spellings (sa.rx NFA); '
     'R3 flush_pre_post empties both queues on every path, walks pre forward keeping the first and post backward keeping the last '
     'occurrence, drops container entries named in either override set and assembles pre + kept + post; __iadd__ prepends a batch in its own order. '
-    'Does NOT decide the equivalence of lazy and eager meaning over operation sequences (a run-time relation), nor the callers in the backends.')
+    'Does NOT decide the equivalence of lazy and eager meaning over operation sequences (a run-time relation), the classification of concrete argument '
+    'strings (only the tables, the chain and the regex language are decided, no body is evaluated on sample arguments), the DCompilerArgs tables, nor the callers in the backends.')
 ASSUMPTIONS = [
     'collections.abc.MutableSequence mixin methods (pop, remove, reverse, clear, index, count, __contains__, __reversed__) are built from the abstract methods as documented',
     'list/deque/set methods (append, appendleft, extend, extendleft, add, clear, slice assignment) behave as documented',
     'objects reaching a parameter annotated or tested as CompilerArgs may hold pending pre/post entries (any caller may have used +=)',
 ]
-TECHNIQUE = 'typestate (clean/dirty per receiver) as a may-dataflow over the CFG with method summaries by fixpoint; decision tables over canonical atoms; folded class tables'
+TECHNIQUE = ('typestate (clean/dirty per receiver) as a may-dataflow over the CFG with method summaries by fixpoint; path enumeration; decision tables over canonical atoms '
+             'compared on every world; set comparison of folded constant tables; regex-language facts (membership, empty intersection)')
 
 BY_DESIGN = {'__iadd__': 'the UNIQUE test looks at all three stores', '__len__': 'the length is the sum of all three stores'}
 STORES = (lazy.STORE,) + lazy.QUEUES
@@ -58,18 +61,8 @@ EXAMPLE_REL = 'mesonbuild/_c13_builtin_example.py'
 EXAMPLE_WANT = {'peek_dirty': lazy.DIRTY, 'peek_clean': lazy.CLEAN, 'peek_requeued': lazy.DIRTY, 'peek_copy': lazy.CLEAN}
 
 
-def memo_imports(mod: Module) -> Module:
-    """Module.imports() of the engine walks the whole tree on every call (and resolve_class calls it per lookup):
-    memoise it on the instance for the modules this pack resolves classes in."""
-    if '_c13_imports' not in mod.__dict__:
-        table = mod.imports()
-        mod.__dict__['_c13_imports'] = table
-        mod.imports = lambda: table  # type: ignore[method-assign]
-    return mod
-
-
 def family(repo: Repo) -> lazy.Family:
-    root_mod = memo_imports(repo.module(ARGLIST))
+    root_mod = repo.module(ARGLIST)
     root_cls = root_mod.cls(ROOT)
     members: T.List[T.Tuple[Module, ast.ClassDef]] = [(root_mod, root_cls)]
     names = {ROOT}
@@ -80,7 +73,7 @@ def family(repo: Repo) -> lazy.Family:
         for rel, src in texts.items():
             if not pat.search(src):      # candidates only; membership is decided by resolving the bases
                 continue
-            mod = memo_imports(repo.module(rel))
+            mod = repo.module(rel)
             for q, c in mod.classes().items():
                 if any(c is x[1] for x in members):
                     continue
@@ -108,7 +101,7 @@ def _accessing_functions(repo: Repo) -> T.List[T.Tuple[Module, str, ast.AST]]:
     for rel in repo.py_files('mesonbuild'):
         if not re.search(r'\.' + lazy.STORE + r'\b', repo.read(rel)):
             continue
-        mod = memo_imports(repo.module(rel))
+        mod = repo.module(rel)
         in_funcs: T.Set[int] = set()
         for q, fn in mod.funcs().items():
             hit = False
